@@ -2608,6 +2608,180 @@ def h_pop_fold(ctx, p):
             'fold may return only when no element is left in the iterator', p)
 
 
+
+# ------------------------------------------------------------------------------ formatting: the listing clause (C19)
+# What C19 says about WHICH entries are rendered is decided here (the text itself -- braces, separators, the
+# alternate form -- is a run-time string and is not): Debug / Display hand to the formatter exactly the entries of
+# the container (in iteration order), resp. exactly the entries the iterator has not yet yielded, each once, as the
+# stated projection (pair / key / value), and leave the container and the iterator unchanged.
+FMT_SUBS = {'pair': ((0,), (1,)), 'key': ((0,),), 'value': ((1,),)}
+
+
+def _fmt_subject(E, st0, v):
+    """(container, first, end) of what the receiver still has to show: the range of the cursor inside a
+    borrowing / draining iterator, or the live prefix of the container (owned by a consuming iterator)"""
+    d = 0
+    while v is not None and v[0] == 'ref' and d < 4:
+        try:
+            v = E.load(st0, v[2], quiet=True)
+        except Exception:
+            return None
+        d += 1
+    if v is None:
+        return None
+    E.view_zone = st0.zone
+    c = E.sliceits_in(v)
+    ms_ = E.byvalue_maps(v)
+    if len(c) == 1 and not ms_:
+        return c[0][1], c[0][2], c[0][3]
+    if len(ms_) == 1 and not c:
+        ms = st0.maps[ms_[0]]
+        return ms_[0], 0, ms.len
+    return None
+
+
+def _fmt_root_subject(E):
+    ent = getattr(E, 'root_entry', None)
+    if ent is None or not ent[0]:
+        return None
+    c = getattr(E, '_fmt_subj_cache', None)
+    if c is not None and c[0] is ent[1]:
+        return c[1]
+    r = _fmt_subject(E, ent[1], ent[0][0])
+    E._fmt_subj_cache = (ent[1], r)
+    return r
+
+
+def _fmt_segment_ok(E, z, seg, subj, how, in_order):
+    """one element's worth of log: exactly one advance over a slot of the subject range and the stated
+    projection(s) of exactly that slot handed to the formatter, once each -> (ok, why)"""
+    mid, f0, b0 = subj
+    advs = [e for e in seg if e[0] == 'adv' and e[1] == mid]
+    args_ = [e[1] for e in seg if e[0] == 'fmtarg']
+    # (a direct call `Display::fmt(k, f)` / `k.fmt(f)` of the element's own formatting code)
+    args_ += [e[2][0] for e in seg if e[0] == 'user' and isinstance(e[1], str) and e[1].startswith('core::fmt::')
+              and e[1].endswith('::fmt') and isinstance(e[2], tuple) and e[2]]
+    if len(advs) != 1:
+        return False, 'the cursor over the shown entries must advance over exactly one element per rendered entry (%d advances)' % len(advs)
+    idx = advs[0][2]
+    if in_order and len(advs[0]) > 3 and advs[0][3] == 'back':
+        return False, 'the entries must be rendered in iteration order (front to back)'
+    if not (z.entails_le(f0, idx) and z.entails_lt(idx, b0)):
+        return False, 'the rendered slot %s is not proved to lie inside the not-yet-yielded range [%s,%s)' % (idx, f0, b0)
+    subs = FMT_SUBS[how]
+    want = [('slot', mid, idx, sub) for sub in subs]
+    got = []
+    for a in args_:
+        hit = [w for w in want if mentions_z(z, a, w) or mentions_z(z, a, ('pair',) + w[1:])]
+        other = [sub for sub in ((0,), (1,)) if sub not in subs
+                 and (mentions_z(z, a, ('slot', mid, idx, sub)) or mentions_z(z, a, ('pair', mid, idx, sub)))]
+        if other:
+            return False, 'the %s of the entry is rendered where only its %s belongs' % ('value' if other[0] == (1,) else 'key', how)
+        if not hit:
+            return False, 'something that is not the %s of the entry just passed over is handed to the formatter: %r' % (how, a)
+        got += hit
+    for w in want:
+        if got.count(w) != 1:
+            return False, 'the %s of the entry must be handed to the formatter exactly once (seen %d times)' % (
+                'key' if w[3] == (0,) else 'value', got.count(w))
+    if how == 'pair' and len(want) == 2 and got and got[0] != want[0]:
+        return False, 'the key must be rendered before the value'
+    return True, None
+
+
+def fmt_iteration(how, in_order):
+    def mk(props):
+        def hook(E, body, key, st, seg, depth=0):
+            subj = _fmt_root_subject(E)
+            if subj is None:
+                return
+            if not [e for e in seg if e[0] == 'fmtarg' or (e[0] == 'adv' and e[1] == subj[0])
+                    or (e[0] == 'user' and isinstance(e[1], str) and e[1].startswith('core::fmt::') and e[1].endswith('::fmt'))]:
+                return
+            it = Iteration(E, st, seg)
+            E.iter_classes['rendered'] += 1
+            ok, why = _fmt_segment_ok(E, st.zone, seg, subj, how, in_order)
+            it_req(E, props, 'LISTING', ok, body.name + ':entry',
+                   'each rendered entry must be the %s of the one element the cursor passed over in this round (%s)' % (how, why), it)
+        return hook
+    return mk
+
+
+def h_fmt_listing(how, in_order):
+    def h(ctx, p):
+        nm = ctx.body.name
+        E, z, st = p.E, p.z, p.st
+        ent = getattr(E, 'root_entry', None)
+        subj = _fmt_subject(E, p.st0 if getattr(p, 'st0', None) is not None else ent[1], p.args0[0]) if p.args0 else None
+        if subj is None:
+            ctx.req('LISTING', False, nm, 'cannot find what the receiver still has to show (one cursor or one container)', p)
+            return
+        mid, f0, b0 = subj
+        ms = st.maps[mid]
+        # a formatter error ends the rendering early: only complete renderings are judged for completeness
+        early = [e for e in p.events if e[0] == 'errprop']
+        ctx.classes['rendered-all' if not early else 'error'] += 1
+        quiet = not [e for e in p.events if e[0] in ('read', 'write', 'len', 'store') and e[1] == mid] \
+            and not ms.contents and not ms.holes and not ms.extras
+        ctx.req('LISTING', quiet, nm, 'formatting must not change the container', p)
+        v1 = final_self(p)
+        same = v1 == p.self0 or (cursor_of(E, v1) is not None and cursor_of(E, p.self0) is not None
+                                 and all(z.entails_eq(a, b) for a, b in zip(cursor_of(E, v1)[1:3], cursor_of(E, p.self0)[1:3])))
+        shared = bool(p.args0) and p.args0[0][0] == 'ref' and not p.args0[0][1]
+        ctx.req('LISTING', shared or same, nm, 'formatting must not advance or change the iterator itself', p)
+        # the part of the log in front of the first loop (an element rendered before the loop, as Display does)
+        first = next((i for i, e in enumerate(p.events) if e[0] == 'loop'), len(p.events))
+        head = p.events[:first]
+        if [e for e in head if e[0] == 'fmtarg' or (e[0] == 'adv' and e[1] == mid)] and not early:
+            ok, why = _fmt_segment_ok(E, z, head, subj, how, in_order)
+            ctx.req('LISTING', ok, nm + ':first', 'the entry rendered in front of the loop must be the %s of the first '
+                    'not-yet-yielded element (%s)' % (how, why), p)
+        if early:
+            return
+        g = st.ghost.get(('adv', mid))
+        n = g[0] if g else 0
+        if z.entails_le(b0, f0):
+            ok = (isinstance(n, int) and n == 0) or z.entails_eq(n, 0)
+        else:
+            ok = z.entails_eq(f0, 0) and z.entails_eq(n, b0)
+            if not ok:
+                ok = z.entails_eq(slots.plus(st.fork(), f0, 0), f0) and z.entails_eq(n, b0) and z.entails_eq(f0, 0)
+        ctx.req('LISTING', ok, nm, 'exactly the not-yet-yielded entries [%s,%s) must be rendered, each once (entries passed '
+                'over by the rendering cursor: %s)' % (f0, b0, n), p)
+    return h
+
+
+def val_eq_z(z, a, b, d=0):
+    """structural equality of two abstract values, position terms compared in the zone"""
+    if a is b or a == b:
+        return True
+    if d > 12:
+        return False
+    if isinstance(a, Term) or isinstance(b, Term):
+        try:
+            return bool(z.entails_eq(a, b))
+        except Exception:
+            return False
+    if isinstance(a, tuple) and isinstance(b, tuple) and len(a) == len(b):
+        return all(val_eq_z(z, x, y, d + 1) for x, y in zip(a, b))
+    return False
+
+
+def h_fmt_via_clone(ctx, p):
+    """Debug of a lazy set-algebra iterator: renders what a faithful copy of itself yields -- the copy handed to
+    entries() must equal the receiver (same cursors, same operands); what such an iterator yields is C08's"""
+    nm = ctx.body.name
+    ctx.classes['rendered-clone'] += 1
+    over = [e[1] for e in p.events if e[0] == 'entries-over']
+    ok = len(over) == 1 and over[0] is True
+    ctx.req('LISTING', ok, nm, 'the entries rendered must be those a faithful copy of the iterator yields: the value handed '
+            'to entries() must equal the receiver (equal: %s)' % (over,), p)
+    v1 = final_self(p)
+    shared = bool(p.args0) and p.args0[0][0] == 'ref' and not p.args0[0][1]
+    # (through `&self` the borrow checker already rules a change out)
+    ctx.req('LISTING', shared or val_eq_z(p.z, v1, p.self0), nm, 'formatting must not advance or change the iterator itself', p)
+
+
 # get_disjoint: every answer written into the result array is the value of a slot whose key matched that request
 AGREE_TRACK = {
     (MAP, None, 'get_disjoint_mut'): {'C13'},
@@ -3239,6 +3413,25 @@ def check_root(E, body, rr):
     return digest
 
 
+
+
+# C19 (listing clause): which entries Debug / Display hand to the formatter
+FMT_ROOTS = {
+    (MAP, 'Debug', 'fmt'): ('pair', True), (MAP, 'Display', 'fmt'): ('pair', True),
+    (SET, 'Debug', 'fmt'): ('key', True), (SET, 'Display', 'fmt'): ('key', True),
+    (ITER, 'Debug', 'fmt'): ('pair', False), (ITERMUT, 'Debug', 'fmt'): ('pair', False), (DRAIN, 'Debug', 'fmt'): ('pair', False),
+    (INTOITER, 'Debug', 'fmt'): ('pair', False),
+    (KEYS, 'Debug', 'fmt'): ('key', False), (INTOKEYS, 'Debug', 'fmt'): ('key', False),
+    (VALUES, 'Debug', 'fmt'): ('value', False), (VALUESMUT, 'Debug', 'fmt'): ('value', False), (INTOVALUES, 'Debug', 'fmt'): ('value', False),
+}
+for _k, (_how, _ord) in FMT_ROOTS.items():
+    HANDLERS[_k] = ({'C19'}, h_fmt_listing(_how, _ord))
+    ITER_HOOKS[_k] = ({'C19'}, fmt_iteration(_how, _ord), {'rendered'})
+    CLASSES[_k] = {'rendered-all'}
+    ADV_TRACK.add(_k)
+for _path in (DIFF, DIFFREF, INTER, UNION, SYMDIFF):
+    HANDLERS[(_path, 'Debug', 'fmt')] = ({'C19'}, h_fmt_via_clone)
+    CLASSES[(_path, 'Debug', 'fmt')] = {'rendered-clone'}
 
 UNWIND_HANDLERS.update({
     (ENT, None, 'or_insert_with'): ({'C11'}, u_or_insert('with')),
